@@ -42,7 +42,7 @@ Record service := mkservice { s_tns : text; s_methods : list method }.
 (* ------------------------------------------------------------ decorator.py: message classes *)
 
 Definition rename (f : field) (n : text) : field :=
-  mkfield n (f_ty f) (f_min f) (f_max f) (f_nillable f) (f_kind f).
+  mkfield n (f_ty f) (f_min f) (f_max f) (f_nillable f) (f_kind f) (f_sub_name f) (f_sub_ns f).
 
 (** '%s%s%d' % (func_name, RESULT_SUFFIX, i) for a sequence of return types, '%s%s' for one *)
 Fixpoint result_fields (name : text) (i : Z) (rs : list field) : list field :=
@@ -159,10 +159,11 @@ Inductive rsp :=
 | RFault (log : list call) (c : fcode)
 | RCrash (log : list call) (e : exn).
 
-(** deserialize(): a decoded message that is None (the request element is xsi:nil, or a bare primitive without
-    content) is replaced by [None] * len(body_class._type_info) -- one None per OWN member of the message class;
-    a primitive class has no _type_info: AttributeError, outside the try block of get_in_object *)
-Definition absent_args (U : universe) (t : ty) (v : val) : exn + val :=
+(** deserialize(), body_style WRAPPED only: a decoded message that is None (the request element is xsi:nil) is
+    replaced by [None] * len(body_class._type_info) -- one None per OWN member of the message class; the only
+    argument of a bare method is simply None, and for out_bare the None is kept (tuple(None) then fails) *)
+Definition absent_args (wrapped : bool) (U : universe) (t : ty) (v : val) : exn + val :=
+  if negb wrapped then inr v else
   match v with
   | VNone =>
       match t with
@@ -292,7 +293,7 @@ Section Pipeline.
                   | VFault => RFault [] FValidation
                   | Crash e => RCrash [] e
                   | Ok inobj0 =>
-                    match absent_args U (fst (req_ty U0 i m)) inobj0 with
+                    match absent_args (match eff_style m with EWrapped => true | _ => false end) U (fst (req_ty U0 i m)) inobj0 with
                     | inl e => RCrash [] e
                     | inr inobj =>
                       (* process_request: the argument sequence *)
@@ -352,7 +353,8 @@ Section Pipeline.
         do ohdr0 <- hdr_in (m_out_header m) hdoc;
         let ohdr := match ohdr0 with Some [VNone] => None | _ => ohdr0 end in   (* len(headers) == 1: the header itself *)
         do v0 <- dec L C U fuel (fst (resp_ty U0 i m)) (snd (resp_ty U0 i m)) body;
-        do v <- match absent_args U (fst (resp_ty U0 i m)) v0 with inl e => Crash e | inr v => Ok v end;
+        do v <- match absent_args (match eff_style m with EWrapped => true | _ => false end) U (fst (resp_ty U0 i m)) v0 with
+                | inl e => Crash e | inr v => Ok v end;
         match m_style m, m_returns m, v with
         | SWrapped, [], _ => Ok (VNone, ohdr)
         | SWrapped, [_], VObj _ [x] => Ok (x, ohdr)
